@@ -19,13 +19,13 @@ Print Assumptions C11_rr4_sound.
 Theorem C11_rr7_sound : RR7_sound.                             Proof. exact rr7_sound. Qed.
 Print Assumptions C11_rr7_sound.
 (* RationalReconstruction(a,b,x,m,numbound,denbound).
-   Body with `bound = x/bb` (in /repo until frag/C11.fix-2.diff is applied; HISTORY afterwards): a success satisfies the clauses for
+   HISTORY - body with `bound = x/bb` (in /repo until 224c4ab = frag/C11.fix-2.diff; no longer extracted or compared): a success satisfied the clauses for
    the bound max(x/denbound, numbound) the code derives - NOT for the caller's numbound, which is refuted: 31 mod 101, (2, 3) -> -8/3 *)
 Theorem C11_rr6_sound_derived_bound : RR6_sound.               Proof. exact rr6_sound. Qed.
 Print Assumptions C11_rr6_sound_derived_bound.
 Theorem C11_rr6_numbound_refuted : RR6_numbound_refuted.       Proof. exact rr6_numbound_refuted. Qed.
 Print Assumptions C11_rr6_numbound_refuted.
-(* repaired body (ratrecon is given numbound itself): the property's clauses against the caller's bounds, and completeness *)
+(* the body in /repo now (224c4ab: ratrecon is given numbound itself): the property's clauses against the caller's bounds, and completeness *)
 Theorem C11_rr6f_sound : RR6f_sound.                           Proof. exact rr6f_sound. Qed.
 Print Assumptions C11_rr6f_sound.
 Theorem C11_rr6f_complete : RR6f_complete.                     Proof. exact rr6f_complete. Qed.
